@@ -872,6 +872,10 @@ impl Allocator {
                         return Err(EvalErr::OutOfMemory);
                     }
                     let end = start + substr.len();
+                    #[cfg(feature = "verif-hooks")]
+                    crate::verif_hooks::emit(crate::verif_hooks::Event::InlineSubstrCopy {
+                        len: substr.len(),
+                    });
                     self.u8_vec.extend_from_slice(substr);
                     let idx = self.atom_vec.len();
                     self.atom_vec.push(AtomBuf {
